@@ -362,6 +362,12 @@ func scenariosFor(tier string) []vrt.Scenario {
 	add(b, cfg{mode: "constant", maxDur: ms(2000), cancelAt: ms(150), body: "sleeplong"})
 	add(b-1, cfg{mode: "file-users-first", maxDur: ms(2000), cancelAt: never, body: "sleeplong", conc: 2})
 	add(b-1, cfg{mode: "users", maxDur: ms(2000), cancelAt: ms(0), body: "sleep30", conc: 2}) // the interrupt lands while the pool is starting up
+	for _, c := range []cfg{{mode: "constant", maxDur: ms(300), cancelAt: never, body: "sleep30", conc: 2, ct: ms(200), setup: "ok"}, {mode: "users", maxDur: ms(300), cancelAt: ms(150), body: "sleep30", conc: 2, ct: ms(200), setup: "ok"}} {
+		s := scenario(c).WithPlainPoints(1)
+		s.Delay = true
+		s.Name += "/policy=delay"
+		out = append(out, s)
+	}
 	// the triggering window is over before it begins
 	add(b, cfg{mode: "constant", maxDur: ms(10), cancelAt: never, body: "sleep30", conc: 2})
 	add(b, cfg{mode: "constant", maxDur: ms(5), cancelAt: never, body: "instant"})
